@@ -1687,6 +1687,63 @@ func ruleCDC8(w *World, r *Report) {
 		return true
 	})
 	r.Cond(applies, "CDC-8", "apply:deletes-from-restored-index", w.Pos(fi.Decl.Pos()), "replayed deletions are applied to the live index", "replayAOF never deletes a vector from a restored index: a vector deleted after a snapshot is back after restart")
+	// the tombstone for a restored index must not depend on whether this log also holds a pending entry for the id
+	// (a VMETA journaled after the snapshot creates a metadata-only pending entry for a node that lives in the snapshot)
+	if fn := w.SSAFunc(fi.Obj); fn != nil {
+		fieldOfLoad := func(v ssa.Value) string {
+			u, ok := v.(*ssa.UnOp)
+			if !ok || u.Op != token.MUL {
+				return ""
+			}
+			fa, ok := u.X.(*ssa.FieldAddr)
+			if !ok {
+				return ""
+			}
+			_, f := structFieldName(fa.X.Type(), fa.Field)
+			return f
+		}
+		var tomb []*ssa.MapUpdate
+		var pend []*ssa.Lookup
+		for _, b := range fn.Blocks {
+			for _, in := range b.Instrs {
+				switch x := in.(type) {
+				case *ssa.MapUpdate:
+					if fieldOfLoad(x.Map) == "deleted" {
+						tomb = append(tomb, x)
+					}
+				case *ssa.Lookup:
+					if x.CommaOk && fieldOfLoad(x.X) == "entries" {
+						pend = append(pend, x)
+					}
+				}
+			}
+		}
+		if len(tomb) == 0 {
+			r.Und("CDC-8", "arm:VDEL:tombstone", w.Pos(fi.Decl.Pos()), "replayAOF no longer records deletions of snapshot-restored vectors in a `deleted` set")
+		}
+		for i, t := range tomb {
+			bad := false
+			var at token.Pos
+			for _, lk := range pend {
+				okv := extractOfValue(lk, 1)
+				if okv == nil {
+					continue
+				}
+				tr, fl := condEdges(okv)
+				for _, e := range append(tr, fl...) {
+					sb := e.from.Succs[e.succ]
+					if len(sb.Preds) == 1 && (sb == t.Block() || sb.Dominates(t.Block())) {
+						bad, at = true, lk.Pos()
+					}
+				}
+			}
+			pos := w.Pos(t.Pos())
+			if bad {
+				pos = w.Pos(at)
+			}
+			r.Cond(!bad, "CDC-8", fmt.Sprintf("arm:VDEL:tombstone#%d:independent-of-pending-entry", i+1), pos, "the deletion is recorded for the restored index whether or not this log holds a pending entry for the id", "the VDEL arm records the deletion for a snapshot-restored index only on one outcome of its pending-entry lookup: after SaveSnapshot, a metadata update followed by a delete of the same vector leaves no tombstone, and the deleted vector is back after restart")
+		}
+	}
 	// KV: a DEL must reach the restored store, not only the aggregation map of this log
 	kvDel := w.FuncObj("pkg/core", "KVStore.Delete")
 	if arm := rt.Arms["DEL"]; arm != nil && kvDel != nil {
